@@ -213,6 +213,10 @@ def hstep3 (st : HState3 K V) : HOp K V → HState3 K V × Out K V
     | (s', .unit) => (⟨s', st.t⟩, .abort)
     | (s', o) => (⟨s', st.t⟩, o)
   | .updateExtendAbort l => (⟨st.s.addAll l, st.t⟩, .abort)
+  | .updateMapAbort l => match st.s.setAll l with
+    | (s', .unit) => (⟨s', st.t⟩, .abort)
+    | (s', o) => (⟨s', st.t⟩, o)
+  | .rejected => (st, .abort)
   | .copyToT => (⟨st.s, st.s.copy⟩, .unit)
   | .copyToS => (⟨st.s.copy, st.t⟩, .unit)
   | .swap => (⟨st.t, st.s⟩, .unit)
